@@ -193,9 +193,10 @@ REGISTRY = {
     'C01': {
         'theorems': ['PP.C01.output_reads_back', 'PP.C01.canon_reads_back', 'PP.Tok.canon_reads', 'PP.C03.output_tokens', 'PP.Limits.limits_tokens',
                      'PP.C04.sound_pformat', 'PP.C02.lines_join', 'PP.C02.lines_nonempty', 'PP.C02.unescape_escape', 'PP.C01.sorted_perm',
-                     'PP.C01.insertion_order'],
+                     'PP.C01.insertion_order', 'PP.C01.output_reads_back_sorted', 'PP.Tok.inC01_shown'],
         'modules': VALUE_MODULES + ['PP.Props.Values', 'PP.Spec.Tokens', 'PP.Spec.Reader', 'PP.Proofs.Toks', 'PP.Proofs.ToksStr', 'PP.Proofs.ToksComb',
-                                    'PP.Proofs.ToksVal', 'PP.Proofs.ReaderRT', 'PP.Props.C03', 'PP.Props.C01b'],
+                                    'PP.Proofs.ToksVal', 'PP.Proofs.ReaderRT', 'PP.Props.C03', 'PP.Props.C01b', 'PP.Proofs.Shown',
+                                    'PP.Proofs.ShownC01', 'PP.Props.C01c'],
         'sections': [{'name': 'builtin-values', 'run': values_sec('builtin_values_section')},
                      {'name': 'tokens', 'run': values_sec('tokens_section')}],
         'trusted': VALUE_TRUSTED,
@@ -217,8 +218,11 @@ REGISTRY = {
         'rule': 'same syntax tree (ast.dump) across all layout settings of each value; every line indented by a multiple of indent',
     },
     'C08': {
-        'theorems': ['PP.C04.sound_pformat', 'PP.C08.wrapper_shape', 'PP.C08.wrapper_seq', 'PP.C08.wrapper_int'],
-        'modules': VALUE_MODULES + ['PP.Props.Values'],
+        'theorems': ['PP.C04.sound_pformat', 'PP.C08.wrapper_shape', 'PP.C08.wrapper_seq', 'PP.C08.wrapper_int',
+                     'PP.C08.seq_wrapper_tokens', 'PP.C08.dict_wrapper_tokens', 'PP.C08.int_wrapper_tokens', 'PP.C08.str_wrapper_tokens',
+                     'PP.C03.output_tokens'],
+        'modules': VALUE_MODULES + ['PP.Props.Values', 'PP.Spec.Tokens', 'PP.Proofs.Toks', 'PP.Proofs.ToksStr', 'PP.Proofs.ToksComb',
+                                    'PP.Proofs.ToksVal', 'PP.Props.C03', 'PP.Props.TokensMore'],
         'sections': [{'name': 'subclasses', 'run': values_sec('subclasses_section')}],
         'trusted': VALUE_TRUSTED,
         'rule': 'instances of generated subclasses of the nine built-in bases, nested, all layouts; eval reconstructs class and value',
@@ -253,8 +257,10 @@ REGISTRY = {
         'rule': 'container trees with unique leaves x depth in {0..height+2, None}',
     },
     'C17': {
-        'theorems': ['PP.C04.sound_pformat', 'PP.C17.empty_call', 'PP.C17.hug_only_exact'],
-        'modules': VALUE_MODULES + ['PP.Props.Values'],
+        'theorems': ['PP.C04.sound_pformat', 'PP.C17.empty_call', 'PP.C17.hug_only_exact', 'PP.C17.call_tokens', 'PP.C17.kw_tokens',
+                     'PP.C03.output_tokens'],
+        'modules': VALUE_MODULES + ['PP.Props.Values', 'PP.Spec.Tokens', 'PP.Proofs.Toks', 'PP.Proofs.ToksStr', 'PP.Proofs.ToksComb',
+                                    'PP.Proofs.ToksVal', 'PP.Props.C03', 'PP.Props.TokensMore'],
         'sections': [{'name': 'calls', 'run': values_sec('calls_section')},
                      {'name': 'dataclasses-attrs', 'run': simple_sec('sec_extras', 'extras_section')}],
         'trusted': VALUE_TRUSTED,
